@@ -10,6 +10,18 @@ CHECKS = {
  "C02": ("PBT with two independent oracles over generated type graphs: harness-owned description of each type identity, and coinductive comparison of MetaType::type_info() with the portable entries (proptest); supervisor for termination",
          "Exploration over histories on cyclic / mutually recursive generated graphs: every id handed out is walked through every reference and each entry is compared with (1) what the harness spec says the type is and (2) the type's own type_info().",
          "Trusted: vtypes::desc (the harness's statement of what each built-in constructor and each programmed node must look like). PhantomData's own docs not asserted.", "2/C02"),
+ "C03": ("generated-program PBT: derive inputs (TypeInfo + Encode) x entropy-driven values, each program compiled by rustc against the current tree and run; oracle = schema-directed SCALE decoder over the registry vs the value's model (proptest, AST shrinking)",
+         "Exploration over programs: ~1200 (quick) / 30000 (thorough) generated programs of 1-3 definitions each with 12 values per root type. A compile failure is judged by the twin program without the TypeInfo derive.",
+         "Trusted: rustc; the codec derive 3.7.5 index rule; harness/vprog/src/dec.rs (decoder) and harness/vsupport (value models). Bounded by how many programs can be compiled.", "2/C03"),
+ "C04": ("generated-program PBT: type expressions over all built-in constructors x values; oracle = schema-directed decoder vs model; shape check for char and 19/20-tuples (proptest)",
+         "Exploration: generated nests (depth <= 3) over every built-in constructor family incl. all Compact/NonZero widths, BitVec store x order pairs, tuples up to 20, PhantomData positions.",
+         "Trusted: value generators/models for std types in harness/vsupport.", "2/C04"),
+ "C09": ("generated-program PBT across two feature configurations (docs on/off): derive output vs expectation computed from the generator's AST (proptest)",
+         "Exploration: ~700 programs per docs setting (quick), definitions with all attribute combinations, doc-comment forms, raw identifiers, lifetimes, macro_rules field types, whitespace-perturbed types.",
+         "Type names compared after deleting all whitespace; block/inner docs and chained replacement rules not generated.", "2/C09"),
+ "C17": ("generated-program PBT: builder call chains (compile-time and portable form, permuted setter orders) under docs on/off, plus PhantomData-erasure scan of registries from generated definitions and built-in expressions (proptest)",
+         "Exploration: ~1800 builder chains and ~1000 PhantomData programs per quick run; built Type compared part by part with what was supplied.",
+         "Same setter twice is not generated; portable docs only exist under the docs feature.", "2/C17"),
  "C05": ("stateful PBT with deliberate repetition and aliases; identity<->id bijection against a harness identity function, registry-unchanged-on-repeat, exact entry count, type_info call counters (proptest)",
          "Exploration over histories that re-register earlier roots through transparent wrappers and user aliases after unrelated registrations; checked after every registration.",
          "Trusted: vtypes::ident, the identity function written from the property statement.", "2/C05"),
@@ -70,8 +82,10 @@ def main():
             "add_only": True,
         },
         "engines": [
-            {"name": "vrun", "path": "harness/vrun", "serves_properties": sorted(k for k in checks if k in {"C01","C02","C05","C06","C07","C08","C10","C11","C12","C14","C16","C18"}),
+            {"name": "vrun", "path": "harness/vrun", "serves_properties": sorted(k for k in checks if k in {"C01","C02","C05","C06","C07","C08","C10","C11","C12","C14","C16","C18","C19"}),
              "kind_free_text": "proptest 1.11 driven from a binary (seeded ChaCha TestRng per thread, failure_persistence off), supervisor process for worker death"},
+            {"name": "vprog", "path": "harness/vprog", "serves_properties": sorted(k for k in checks if k in {"C03","C04","C09","C13","C15","C17","C20"}),
+             "kind_free_text": "proptest strategies over a program grammar; every case is Rust source compiled by a direct rustc call against scale-info built from /repo's working tree (anchor crate per feature set), run, and judged from its output"},
         ],
         "checks": [],
         "notes": "All checks: ./check <id> quick|thorough; VERIF_SEED selects the PRNG stream; exit 2 = infrastructure/inconclusive, never a violation. Fix commits in /repo are listed in known_findings.txt.",
@@ -85,7 +99,7 @@ def main():
             "thorough_cmd": "./check %s thorough" % pid,
             "evidence_file": "evidence/%s.json" % pid,
             "replay_cmd_template": "./check %s --replay {path}" % pid,
-            "engine": "vrun" if pid in {"C01","C02","C05","C06","C07","C08","C10","C11","C12","C14","C16","C18"} else "progcheck",
+            "engine": "vrun" if pid in {"C01","C02","C05","C06","C07","C08","C10","C11","C12","C14","C16","C18","C19"} else "vprog",
             "level_claimed": {"category": "exploration", "text": text, "design_ref": "DESIGN.md section " + ref},
             "level_note": note,
             "technique": tech,
